@@ -19,6 +19,8 @@ def baselines(n, seed):
             ps = ("boxdomain", int(rng.integers(0, 2 ** 31)), int(rng.integers(2, 4)), int(rng.integers(0, 2)), {})
         pk = gen.random_params(rng, iteration_limit=12, step_solver_type=gen.STEPSOLVERS[i % 4],
                                step_control_type=gen.CTLS[(i // 4) % 4], newton_type=gen.NEWTONS[(i // 2) % 4])
+        if i % 3:
+            pk["report_rcond"] = True          # the condition estimator's solves are fault positions as well
         out.append({"prob": ps, "params": pk})
     return out
 
